@@ -73,6 +73,9 @@ def impl_eval(case):
                     why = f'decoded dictionary differs from the independent reading at keys {sorted(diff)[:5]}'
                 elif 'DE43-KEYS-DIFFER' in o2:
                     why = 'DE43_* keys are not what the configured pattern yields'
+                elif 'want43' in case and {k: v for k, v in back.items() if k.startswith('DE43_')} != case['want43']:
+                    why = (f"the packaged configuration splits the merchant element into "
+                           f"{ {k: v for k, v in back.items() if k.startswith('DE43_')} }, documented split {case['want43']}")
     return {'obs': [o1, o2], 'violation': why, 'nontrivial': len(msg) > 1,
             'tags': [f'codec:{codec}', f'hex:{int(hexbm)}', f"cfg:{'pkg' if case['cfg'] == 'pkg' else 'gen'}"]}
 
@@ -213,6 +216,45 @@ def explore(run, tier):
         c = c01.mk(cfg, 'cp500', gi % 2, m, {})
         c['unconfigured'] = f'DE{b}'
         cases.append(c)
+    # EMPTY values — '' for text elements, b'' for the binary (ICC) element: an empty value is an absent element (its bit
+    # stays off and nothing is emitted), alone and next to present elements
+    for b in bits:
+        fc = pkg[str(b)]
+        if fc.get('field_python_type'):
+            continue
+        empty = b'' if fc.get('field_processor') == 'ICC' else ''
+        for other in ({}, {'DE3': '123456'}, {'DE3': '123456', 'DE71': 7, 'DE94': 'ABCDEFGHIJK'}):
+            m = {'MTI': '1240', **other, f'DE{b}': empty}
+            if b in (3, 71, 94) and other:
+                continue
+            cases.append(c01.mk('pkg', codecs3[b % 3], (b + len(other)) % 2, m, {}))
+    # the packaged merchant-element pattern, with the result written out here (not computed from the live pattern): name,
+    # address and suburb end at the back-slash with trailing BLANKS removed (other white space is data), post code
+    # ten positions with trailing blanks removed, state three positions, country three non-blank characters
+    def d43(name, addr, sub, pc='3103', st='VIC', ctry='AUS'):
+        return {'DE43_NAME': name, 'DE43_ADDRESS': addr, 'DE43_SUBURB': sub, 'DE43_POSTCODE': pc, 'DE43_STATE': st,
+                'DE43_COUNTRY': ctry}
+    tail = '3103      VICAUS'
+    for vi, (v, want) in enumerate((
+            ('BIG BOBS\\80 KERNDALE ST\\DANERLEY\\' + tail, d43('BIG BOBS', '80 KERNDALE ST', 'DANERLEY')),
+            ('BIG BOBS    \\80 KERNDALE ST  \\DANERLEY \\' + tail, d43('BIG BOBS', '80 KERNDALE ST', 'DANERLEY')),
+            ('BIG BOBS\t\\80 KERNDALE ST\xa0\\DANERLEY\x0b\\' + tail, d43('BIG BOBS\t', '80 KERNDALE ST\xa0', 'DANERLEY\x0b')),
+            ('BIG BOBS \t \\80 KERNDALE ST\x0c\\DANERLEY\r\\' + tail, d43('BIG BOBS \t', '80 KERNDALE ST\x0c', 'DANERLEY\r')),
+            ('  BIG  BOBS\\ 80\tKERNDALE\\\xa0D\\' + tail, d43('  BIG  BOBS', ' 80\tKERNDALE', '\xa0D')),
+            ('A\\B\\C\\2000      N  NZL', d43('A', 'B', 'C', '2000', 'N  ', 'NZL')),
+            ('A\\B\\C\\          NSWAUS', d43('A', 'B', 'C', '', 'NSW', 'AUS')),
+            ('A\\B\\C\\2000      NSWAU ', {}),
+            ('A\\B\\C\\2000     NSWAUS', {}),
+            ('NO SEPARATORS HERE', {}))):
+        for codec in codecs3:
+            try:
+                v.encode(codec)
+            except UnicodeError:
+                continue
+            m = {'MTI': '1240', 'DE3': '000000', 'DE43': v}
+            c = c01.mk('pkg', codec, vi % 2, m, dict(m))
+            c['want43'] = want
+            cases.append(c)
     # the merchant-name processor on different elements, with the packaged pattern / none / an empty one / a caller's own
     pat = pkg['43']['field_processor_config']
     for bit in (43, 61, 104):
